@@ -24,6 +24,7 @@ mod c18;
 mod c19;
 mod c20;
 mod queries;
+mod x01;
 
 use std::path::PathBuf;
 
@@ -99,6 +100,7 @@ fn main() {
     "C18" => c18::run(&ctx),
     "C19" => c19::run(&ctx),
     "C20" => c20::run(&ctx),
+    "X01" => x01::run(&ctx),
     _ => {
       eprintln!("unknown property {}", prop);
       std::process::exit(2);
